@@ -87,14 +87,17 @@ def decoder_roles(rep, rule, c, subject_text):
             Lw = wl[0]
             stop = ('item', Lw.id, (2, 1))
             uses = []
+            def conds(d):
+                return [c.norm(fr[1]) for fr in d.dsl if fr[0] in ('if', 'elif')] + \
+                       [c.norm(p_) for fr in d.dsl if fr[0] == 'case' for p_ in fr[2]]
             for d in c.t.drivers:
-                exprs = [c.norm(d.value)] + [c.norm(fr[1]) for fr in d.dsl if fr[0] in ('if', 'elif')]
+                exprs = [c.norm(d.value)] + conds(d)
                 if any(x == stop for e in exprs for x in ir.walk(e)):
                     uses.append(d)
             # one level through local select wires
             wires = {ir.show(c.norm(d.target)) for d in uses if c.norm(d.target)[0] == 'sig'}
             strobes = [d for d in c.t.drivers if ('for', Lw.id) in d.gen and
-                       (d in uses or any(ir.show(x) in wires for e in [c.norm(d.value)] + [c.norm(fr[1]) for fr in d.dsl if fr[0] in ('if', 'elif')]
+                       (d in uses or any(ir.show(x) in wires for e in [c.norm(d.value)] + conds(d)
                                          for x in ir.walk(e)))
                        and c.norm(d.target)[0] == 'attr' and c.norm(d.target)[2] in ('r_stb', 'w_stb', 'cyc', 'stb')]
             if strobes:
